@@ -419,6 +419,54 @@ pub fn check_case(case: &C15Case) -> (Vec<Violation>, Counters) {
         bad(&r.0, &r.1, r.2);
       }
     }
+    // the crash-truncated file handed to the two in-memory entry points
+    let cut = &j.as_bytes()[..k as usize];
+    let r = guard(&mut || match SourceMap::from_slice(cut) {
+      Ok(_) => Some((
+        "truncated_accepted".into(),
+        "from_slice".into(),
+        format!("only the first {} of {} bytes survived the crash, yet from_slice returned Ok", k, j.len()),
+      )),
+      Err(_) => None,
+    });
+    counters.inc("fault:crash_truncation_fired");
+    if let Some(r) = r {
+      bad(&r.0, &r.1, r.2);
+    }
+    if let Ok(cut_str) = std::str::from_utf8(cut) {
+      let r = guard(&mut || match SourceMap::from_json(cut_str) {
+        Ok(_) => Some((
+          "truncated_accepted".into(),
+          "from_json".into(),
+          format!("only the first {} of {} bytes survived the crash, yet from_json returned Ok", k, j.len()),
+        )),
+        Err(_) => None,
+      });
+      if let Some(r) = r {
+        bad(&r.0, &r.1, r.2);
+      }
+    }
+  }
+  // after the faults: the intact document still parses to the same fields
+  // through all three entry points (a rejected document must leave nothing behind)
+  if !ks.is_empty() {
+    let again = [
+      guard(&mut || match SourceMap::from_json(&j) {
+        Ok(m) => same_fields(&m, &expect, own).map(|d| ("roundtrip".into(), "from_json".into(), d)),
+        Err(e) => Some(("parse_failed_after_fault".into(), "from_json".into(), format!("after rejecting truncated input, from_json rejects the intact document: {}", e))),
+      }),
+      guard(&mut || match SourceMap::from_slice(j.as_bytes()) {
+        Ok(m) => same_fields(&m, &expect, own).map(|d| ("roundtrip".into(), "from_slice".into(), d)),
+        Err(e) => Some(("parse_failed_after_fault".into(), "from_slice".into(), format!("after rejecting truncated input, from_slice rejects the intact document: {}", e))),
+      }),
+      guard(&mut || match SourceMap::from_reader(j.as_bytes()) {
+        Ok(m) => same_fields(&m, &expect, own).map(|d| ("roundtrip".into(), "from_reader".into(), d)),
+        Err(e) => Some(("parse_failed_after_fault".into(), "from_reader".into(), format!("after rejecting truncated input, from_reader rejects the intact document: {}", e))),
+      }),
+    ];
+    for r in again.into_iter().flatten() {
+      bad(&r.0, &r.1, r.2);
+    }
   }
   counters.inc(if own { "population:source_map_values" } else { "population:hand_written_documents" });
   (out, counters)
